@@ -9,7 +9,13 @@ t0 = time.time()
 rg = core.regen()
 print('regen:', rg['ok'], rg['error'] or '', 'changed:', rg['changed'])
 if not rg['ok']: sys.exit(1)
-lb = core.lake_build(['Cbor', 'cbordrv', 'specdrv'])
+import importlib
+targets = ['Cbor', 'cbordrv', 'specdrv']
+for i in range(1, 21):
+    m = importlib.import_module('checks.C%02d' % i).PROP
+    for t in [m.module] + list(m.extra_modules):
+        if t not in targets: targets.append(t)
+lb = core.lake_build(targets)
 print('lake build:', lb['ok'], '%.0fs' % lb['wall_s'])
 if not lb['ok']:
     print(lb['out'][-4000:]); sys.exit(1)
